@@ -20,7 +20,7 @@ VISIBLE = ["alpha.txt", "Beta.txt", "gamma", "z last.txt", "10.txt", "9.txt", "a
            "lib64", "binary", "xcap", "etcetera", "q.askew2", "sub", "sub2", "0", "_under", "a b", "AB", "aB", "Ab"]
 IGNORED = ["backup~", "lost+found", "lib", "bin", "etc", "dev", "veronica.ctl", "robots.txt", "nohup.out", "x.abstract", "y.keyboards",
            "q.ask", "z.3d", "q.askew", "tmp~", "xcap", "a~\n"]
-DOT = [".hidden", ".Links", ".names", ".renames", ".forward", ".cache.pygopherd.dir.old", ".message"]
+DOT = [".hidden", ".Links", ".names", ".renames", ".forward", ".cache.pygopherd.dir.old", ".message", ".names~", ".Links~"]
 
 
 class shuffled_listdir:
@@ -60,6 +60,12 @@ def make_dir(tree, rng, d):
             tree.write(p, b"Name=Extra link\nType=1\nPath=/elsewhere\nHost=example.org\nPort=70\n")
         elif n == ".renames":
             tree.write(p, b"Path=./gamma\nName=Other name for gamma\nNumb=3\n\nName=Extra link\nType=1\nPath=/elsewhere2\nHost=example.org\nPort=70\n")
+        elif n in (".names~", ".Links~"):
+            # an editor's backup of a link file: the ignore pattern matches it (~$), so it is not read as a link file
+            tree.write(p, b"Path=./gamma\nType=X\n\nName=Stale link from a backup file\nType=1\nPath=/stale\nHost=example.org\nPort=70\n")
+            if "gamma" not in names and "gamma" not in made:
+                tree.write(d + "/gamma", b"content of gamma\n")
+                made.append("gamma")
         elif n == ".names":
             tree.write(p, b"# comment\nPath=./gamma\nName=Gamma renamed\n")
         else:
@@ -189,6 +195,9 @@ def run(ctx):
         res.sample({"listing": checks[0][1][:300]})
     finally:
         tree.close()
+    # the whole-site model (tree -> resolution -> dispatch -> entries -> rendering) against the real server
+    import sitecorr
+    sitecorr.compare(ctx, res, ctx.n(4, 40), "C07")
     res.degraded = sorted(set(res.degraded + list(pyg.degraded)))
     return res
 
